@@ -61,12 +61,21 @@ static void vf_switch_to(int next) {
   while (sem_wait(&vf_th[self].sem) != 0) { }
 }
 
+/* parking: a driver may take one thread out of the schedule for the next `vf_park_left` yields of the other threads (a thread that the
+   operating system does not run for a while, e.g. between the two CAS of a remote free); it comes back when the count is used up or
+   when nobody else can run */
+static int vf_park_tid = -1, vf_park_left = 0;
 /* choose the thread to run next at a scheduling point; `must_leave`: the current thread cannot continue (yield / blocked) */
 static int vf_pick(int must_leave) {
   int self = vf_self;
   int cand[VF_MAXT], nc = 0;
-  for (int i = 0; i < vf_nth; i++) if (vf_th[i].state == VF_T_RUNNABLE && i != self) cand[nc++] = i;
-  if (nc == 0) return self;
+  int parked = (vf_park_left > 0 ? vf_park_tid : -1);
+  for (int i = 0; i < vf_nth; i++) if (vf_th[i].state == VF_T_RUNNABLE && i != self && i != parked) cand[nc++] = i;
+  if (self == parked && nc > 0) must_leave = 1;
+  if (nc == 0) {
+    if (must_leave && parked >= 0 && parked != self && vf_th[parked].state == VF_T_RUNNABLE) { vf_park_left = 0; return parked; }
+    return self;
+  }
   switch (vf_strategy) {
     case VF_S_REPLAY: {
       if (vf_sched_pos < vf_sched_len) { int t = vf_sched_list[vf_sched_pos++]; if (t >= 0 && t < vf_nth && vf_th[t].state == VF_T_RUNNABLE && !(must_leave && t == self)) return t; }
@@ -109,6 +118,7 @@ static void vf_point_ex(int kind, int must_leave) {
   vf_step++; vf_th[vf_self].steps++;
   vf_ophash = (vf_ophash ^ (unsigned long)(vf_self * 31 + kind)) * 1099511628211ull;
   if (!must_leave) { for (int i = 0; i < vf_nth; i++) if (i != vf_self) vf_th[i].yielded = 0; }   /* this thread makes progress */
+  if (kind == VF_K_YIELD && vf_park_left > 0 && vf_self != vf_park_tid) vf_park_left--;
   int next = vf_pick(must_leave);
   if (next != vf_self) vf_switch_to(next);
   vf_in_hook = 0;
